@@ -778,6 +778,13 @@ theorem get?_castIdx (m : IMap α) (x : α) :
   cases IMap.lookup m x <;> rfl
 
 
+theorem index?_items_none (items : List (Option α)) (r : Nat) (h : items[r]? = none) :
+    PyRt.index? (items.map ofItem) (r : Int) = .error PyExc.IndexError := by
+  unfold PyRt.index? PyRt.normIdx
+  have h0 : ¬ ((r : Int) < 0) := by omega
+  simp [h0, h]
+
+
 end RepSec
 
 end C11
